@@ -81,8 +81,8 @@ def run(ctx):
     # C04.PTR: push_key / push_index build the right variant with prev = self
     res.add("C04.PTR", *ptr_rules(ctx))
     res.analysed.update({"child_calls": nchild, "report_sites": nsite})
-    res.floor("child calls", nchild, 20)
-    res.floor("report sites", nsite, 117)
+    res.floor("child calls", nchild, 16)
+    res.floor("report sites", nsite, 115)
     res.trusted_base = ["rustc nightly MIR construction", "mirfacts extractor", "rules/loc.py (provenance terms)"]
     res.assumptions = ["locations are tied to the iterator step the item came from; run-time key values are irrelevant to the argument",
                        "derived code: per catalogue entry", "unwinding ignored"]
@@ -95,7 +95,7 @@ def run(ctx):
 
 def ptr_rules(ctx):
     from lin import Finding
-    crate = ctx.corpus("catalogue")["deserr"]
+    crate = ctx.libcrate("deserr")
     fs = []
     n = 0
     for name, variant, field in (("push_key", "Key", "key"), ("push_index", "Index", "index")):
